@@ -64,6 +64,43 @@ class ACmd:
         return f"c{self.k}{sorted(r.ind for r in self.deps)}{'*' if self.marked else ''}"
 
 
+class AOp:
+    """abstract operation: only its measured-parameter dependency set is known"""
+    def __init__(self, mdeps):
+        self.measurement_deps = set(mdeps)
+        self.ns = None
+
+
+@proof("C04", PU + ":Command.get_dependencies", name="Command.get_dependencies/is-the-contract-assumed-for-abstract-commands")
+def _get_dependencies(h):
+    """the contract the abstract commands above ASSUME, on the real method: the dependency set is the union of
+    the measured-parameter dependencies and the target subsystems - for every subset of 3 wires as parameter
+    dependencies and every ordered target list of 1-2 of them (overlapping the parameter dependencies or not)"""
+    pu = h.module(PU)
+    refs = [Ref_(w) for w in range(WIRES)]
+    subsets = [tuple(w for w in range(WIRES) if m >> w & 1) for m in range(2 ** WIRES)]
+    targets = [(a,) for a in range(WIRES)] + [(a, b) for a in range(WIRES) for b in range(WIRES) if a != b]
+    md = subsets[h.eng.choose(len(subsets), "mdeps")]
+    tg = targets[h.eng.choose(len(targets), "targets")]
+    op = AOp([refs[w] for w in md])
+    before = set(op.measurement_deps)
+    reg = [refs[w] for w in tg]
+    out = h.call(pu.Command, op, list(reg))
+    h.ensure("Command.no-exception", out.returned, bounded_shape=True)
+    if not out.returned:
+        return
+    cmd = out.value
+    out = h.call(cmd.get_dependencies)
+    h.ensure("no-exception", out.returned, bounded_shape=True)
+    if not out.returned:
+        return
+    h.ensure("is-a-set", isinstance(out.value, (set, frozenset)), bounded_shape=True)
+    h.ensure("every-target-subsystem-is-a-dependency", all(r in out.value for r in reg), bounded_shape=True)
+    h.ensure("every-measured-parameter-subsystem-is-a-dependency", all(r in out.value for r in before), bounded_shape=True)
+    h.ensure("nothing-else-is", all(r in before or r in reg for r in out.value), bounded_shape=True)
+    h.ensure("operation-and-register-not-mutated", op.measurement_deps == before and cmd.reg == reg, bounded_shape=True)
+
+
 def sequences(L):
     for deps in itertools.product(range(len(DEPSETS)), repeat=L):
         yield deps
